@@ -1464,7 +1464,18 @@ class Config:  # pylint: disable=too-many-instance-attributes
         formatter = format_factory()
 
         tree = formatter.loads(self, content)
-        tree = self._process_includes(self._schema, tree, format_factory)
+        try:
+            tree = self._process_includes(self._schema, tree, format_factory)
+        except ValidationError as err:
+            if isinstance(err.field, IncludeFieldMixin) and err._ref_path and self._ref_path:
+                # a document loaded into a sub-configuration: the path starts at the root
+                raise ValidationError(
+                    self,
+                    err.field,
+                    err.exc,
+                    ref_path="%s.%s" % (self._ref_path, err._ref_path),
+                ) from err
+            raise
 
         self.load_tree(tree)
 
